@@ -300,7 +300,7 @@ pub fn build(cfg: &Cfg) -> Result<Live, String> {
             c.verif_set_clock(&clock);
             Ok(Live::Unsync(Box::new(c), clock))
         }
-        "sync" => {
+        "sync" | "concs" => {
             let mut b = SCache::<VKey, VVal>::builder();
             if let Some(c) = cfg.cap {
                 b = b.max_capacity(c);
@@ -480,9 +480,99 @@ fn exec_unsync<S: std::hash::BuildHasher + Clone>(c: &mut UCache<VKey, VVal, S>,
     }
 }
 
+/// What a logical thread holds between its map step and its enqueue (phase-split API).
+enum Held {
+    Write(mini_moka::verif::PendingWrite<VKey, VVal>),
+    Read(mini_moka::verif::PendingRead<VKey, VVal>),
+}
+
+thread_local! {
+    static HELD: std::cell::RefCell<Vec<(u64, Held)>> = const { std::cell::RefCell::new(Vec::new()) };
+}
+
+pub fn clear_held() {
+    HELD.with(|h| h.borrow_mut().clear());
+}
+
+fn holds(t: u64) -> bool {
+    HELD.with(|h| h.borrow().iter().any(|(x, _)| *x == t))
+}
+
 fn exec_sync<S: std::hash::BuildHasher + Clone + Send + Sync + 'static>(c: &SCache<VKey, VVal, S>, clock: &VerifClock, op: &str) -> String {
     let ws: Vec<&str> = op.split_whitespace().collect();
     let num = |i: usize| -> Option<u64> { ws.get(i).and_then(|s| s.parse().ok()) };
+    // phase-split operations of logical threads (kind=concs)
+    match ws.first().copied() {
+        Some("pins") if ws.len() == 4 => {
+            return match (num(1), num(2), num(3)) {
+                (Some(t), Some(k), Some(v)) if !holds(t) => {
+                    let p = c.verif_insert_map(VKey::new(k), VVal::new(v));
+                    HELD.with(|h| h.borrow_mut().push((t, Held::Write(p))));
+                    "ok".into()
+                }
+                _ => "bad-op".into(),
+            };
+        }
+        Some("pinv") if ws.len() == 3 => {
+            return match (num(1), num(2)) {
+                (Some(t), Some(k)) if !holds(t) => {
+                    let key = VKey::new(k);
+                    if let Some(p) = c.verif_invalidate_map(&key) {
+                        HELD.with(|h| h.borrow_mut().push((t, Held::Write(p))));
+                        "held".into()
+                    } else {
+                        "none".into()
+                    }
+                }
+                _ => "bad-op".into(),
+            };
+        }
+        Some("pget") if ws.len() == 3 => {
+            return match (num(1), num(2)) {
+                (Some(t), Some(k)) if !holds(t) => {
+                    let key = VKey::new(k);
+                    let (r, p) = c.verif_get_map(&key);
+                    HELD.with(|h| h.borrow_mut().push((t, Held::Read(p))));
+                    match r {
+                        Some(v) => format!("some {}", v.0),
+                        None => "none".into(),
+                    }
+                }
+                _ => "bad-op".into(),
+            };
+        }
+        Some("penq") if ws.len() == 2 => {
+            return match num(1) {
+                Some(t) if holds(t) => {
+                    let held = HELD.with(|h| {
+                        let mut h = h.borrow_mut();
+                        let i = h.iter().position(|(x, _)| *x == t).unwrap();
+                        h.remove(i).1
+                    });
+                    match held {
+                        Held::Read(p) => {
+                            c.verif_enqueue_read(p);
+                            "ok".into()
+                        }
+                        Held::Write(p) => match c.verif_enqueue_write(p) {
+                            Ok(()) => "ok".into(),
+                            Err(p) => {
+                                // the channel is full: the thread keeps holding its operation
+                                HELD.with(|h| h.borrow_mut().push((t, Held::Write(p))));
+                                "full".into()
+                            }
+                        },
+                    }
+                }
+                _ => "bad-op".into(),
+            };
+        }
+        Some("maint") if ws.len() == 1 => {
+            c.verif_maint();
+            return "ok".into();
+        }
+        _ => {}
+    }
     // `xhas`, `xiter`, `xsnap` are `has`, `iter`, `snap` marked as *extra* calls of a
     // metamorphic pair (C15); they execute exactly like the plain ones.
     let first = ws.first().copied().map(|w| match w {
@@ -622,6 +712,7 @@ pub fn run_file<R: BufRead, W: Write>(input: R, out: &mut W) {
         }
         if op.starts_with("cfg") {
             // drop the previous cache first (outside catch_unwind is fine)
+            clear_held();
             live = None;
             dead = false;
             reset_counters();
@@ -648,7 +739,8 @@ pub fn run_file<R: BufRead, W: Write>(input: R, out: &mut W) {
         }
         if op == "drop" {
             // drop the last handle to the cache (operations may still be queued): every key
-            // and value object must be released
+            // and value object must be released (what logical threads still hold goes first)
+            clear_held();
             live = None;
             dead = true;
             writeln!(
